@@ -123,6 +123,7 @@ def run(ctx):
     n_props = ctx.share(B['props'])
     controls_detected = set()
     max_traces = 0
+    prev_hp = None
     for n in range(n_props):
         sk, pk, widths = cells[(n * ctx.nshards + ctx.shard) % len(cells)]
         p = make_property(rng, sk, pk, widths)
@@ -134,7 +135,16 @@ def run(ctx):
             ctx.skip('rejected:' + hplapi.exc_class(o))
             continue
         hp = o[1]
-        oc = hplapi.outcome(canonical_form, hp)
+        subject = hp
+        if prev_hp is not None and n % 3 == 1:
+            # history: the same property obtained as a modified copy of one that was canonicalised before
+            od = hplapi.outcome(lambda: prev_hp.but(scope=hp.scope, pattern=hp.pattern))
+            if od[0] == 'ok' and od[1] == hp:
+                subject = od[1]
+                feats.add('shape:derived-with-but')
+                ctx.count('derived_with_but')
+        oc = hplapi.outcome(canonical_form, subject)
+        prev_hp = hp
         if oc[0] != 'ok':
             ctx.violation('canonical-raises', {'property': text, 'error': hplapi.exc_class(oc)}, feats | {'exc:' + hplapi.exc_class(oc)})
             continue
